@@ -17,7 +17,8 @@ PROP = "C03"
 TYPES = ["hex", "srec", "bin", "elf", "wdc", "uf2"]
 # cpu, bytes per address
 # "" = no CPU directive (the default CPU)
-CARRIERS = [("msp430", 1), ("68000", 1), ("mips", 1), ("avr8", 2), ("arm", 1), ("", 1)]
+# riscv64 / arm64: the 64-bit ELF class
+CARRIERS = [("msp430", 1), ("68000", 1), ("mips", 1), ("avr8", 2), ("arm", 1), ("", 1), ("riscv64", 1), ("arm64", 1)]
 
 
 def render(layout, cpu, bpa, variant, order=None):
@@ -95,6 +96,9 @@ def run(tier, seed):
         orders[len(layouts)] = oc["ord"]
         layouts.append(oc["segs"])
 
+    # the ELF writer pads a section to the CPU's alignment (cpu_list[].alignment; 8 for the 64-bit CPUs)
+    from .. import codec as K
+    ALIGN = {c["name"]: c["align"] for c in K.cpu_list(vdir)}
     fdir = os.path.join(rd, "f")
     os.makedirs(fdir)
     cases, meta = [], {}
@@ -129,7 +133,7 @@ def run(tier, seed):
             if t == "wdc" and rec["high"] >= (1 << 24):
                 continue        # the WDC container has 24-bit addresses; such an image is not representable
             ev = {"id": "%s.%s" % (cid, t), "type": t, "img": img, "low": T.hl(rec["low"]), "high": T.hl(rec["high"]),
-                  "gran": 4 if t == "elf" else 1, "file": T.LEXERS[t](data),
+                  "gran": max(4, ALIGN.get(cpu, 4)) if t == "elf" else 1, "file": T.LEXERS[t](data),
                   "syms": [{"n": n, "v": T.hl(rec["sym"][n])} for n in names] if (t == "elf" and exported) else [],
                   "load": True, "rr": fi["rr"], "rb": T.runs_hl(fi["rb"])}
             if has_entry and t in ("elf", "srec"):
